@@ -40,6 +40,7 @@ class PathCtx:
         self.covers: set[str] = set()
         self._divmod: dict = {}
         self._divs_of: dict = {}
+        self._ranges: dict = {}
         self.concretizer = None
 
     # ------------------------------------------------------------ assumptions / queries
@@ -65,6 +66,8 @@ class PathCtx:
         assert isinstance(K, int) and K > 0
         if isinstance(a, int):
             return a // K, a % K
+        if K == 1:
+            return a, 0
         a = simp(Z(a))
         c = z3.is_int_value(a)
         if c:
@@ -76,6 +79,10 @@ class PathCtx:
             q = fresh_int("q")
             r = fresh_int("r")
             self.solver.add(z3.And(a == K * q + r, r >= 0, r < K))
+            self.set_range(r, 0, K - 1)
+            iv = self.interval(a)
+            if iv is not None and None not in iv:
+                self.set_range(q, iv[0] // K, iv[1] // K)
             lst = self._divs_of.setdefault(a.get_id(), [])
             for K1, q1, r1 in lst:
                 x, y = (K1, K) if K1 < K else (K, K1)
@@ -88,6 +95,82 @@ class PathCtx:
             hit = (q, r, a)
             self._divmod[key] = hit
         return hit[0], hit[1]
+
+    def digits(self, v, n):
+        """The n base-256 digits of v (least significant first) for 0 <= v < 256**n, as the canonical progressive chain
+        v = 256*q1 + d0, q1 = 256*q2 + d1, ... (the same fresh variables that `x & 255` / `x >>= 8` loops produce,
+        because divisions are cached per term), plus the sum identity as a lemma."""
+        if isinstance(v, int):
+            return [(v >> (8 * j)) & 255 for j in range(n)]
+        v = simp(Z(v))
+        key = ("digits", v.get_id(), n)
+        hit = self._divmod.get(key)
+        if hit is not None:
+            return hit
+        ds = []
+        q = v
+        for j in range(n - 1):
+            q, r = self.divmod_const(q, 256)
+            ds.append(r)
+        if n >= 1:
+            ds.append(q)
+            if not isinstance(q, int):
+                self.solver.add(z3.And(Z(q) >= 0, Z(q) <= 255))
+        if n >= 2:
+            self.solver.add(v == z3.Sum([Z(d) * (256**j) for j, d in enumerate(ds)]))
+        self._divmod[key] = ds
+        return ds
+
+    # ------------------------------------------------------------ cheap intervals (no solver)
+    def set_range(self, var, lo, hi):
+        if isinstance(var, z3.ExprRef):
+            self._ranges[var.get_id()] = (var, lo, hi)
+
+    def interval(self, t):
+        """(lo, hi) bounds of a linear integer term from the recorded ranges of its variables, or None."""
+        if isinstance(t, bool):
+            return None
+        if isinstance(t, int):
+            return (t, t)
+        if not isinstance(t, z3.ArithRef):
+            return None
+        if z3.is_int_value(t):
+            return (t.as_long(), t.as_long())
+        hit = self._ranges.get(t.get_id())
+        if hit is not None:
+            return (hit[1], hit[2])
+        if not z3.is_app(t):
+            return None
+        k = t.decl().kind()
+        ch = t.children()
+        if k == z3.Z3_OP_ADD:
+            lo = hi = 0
+            for x in ch:
+                iv = self.interval(x)
+                if iv is None or iv[0] is None or iv[1] is None:
+                    return None
+                lo += iv[0]
+                hi += iv[1]
+            return (lo, hi)
+        if k == z3.Z3_OP_SUB and len(ch) == 2:
+            a, b = self.interval(ch[0]), self.interval(ch[1])
+            if a is None or b is None or None in a or None in b:
+                return None
+            return (a[0] - b[1], a[1] - b[0])
+        if k == z3.Z3_OP_UMINUS:
+            a = self.interval(ch[0])
+            if a is None or None in a:
+                return None
+            return (-a[1], -a[0])
+        if k == z3.Z3_OP_MUL and len(ch) == 2:
+            for c_, x in ((ch[0], ch[1]), (ch[1], ch[0])):
+                if z3.is_int_value(c_):
+                    m = c_.as_long()
+                    a = self.interval(x)
+                    if a is None or None in a:
+                        return None
+                    return (min(m * a[0], m * a[1]), max(m * a[0], m * a[1]))
+        return None
 
     def div(self, a, K):
         return self.divmod_const(a, K)[0]
@@ -155,11 +238,15 @@ class PathCtx:
         if cond is True:
             status, model = "discharged", None
         elif cond is False:
-            r, m = self.solver.model()
-            if r == z3.unsat:
+            # reaching this point at all is the violation: discharged iff the path condition (with the axioms) is unsat
+            if self.solver.check(None, timeout=self.solver.prove_timeout, prove=True) == z3.unsat:
                 status, model = "discharged", None  # unreachable
             else:
-                status, model = ("refuted", m) if r == z3.sat else ("undischarged", None)
+                r, m = self.solver.model()
+                if r == z3.unsat:
+                    status, model = "discharged", None
+                else:
+                    status, model = ("refuted", m) if r == z3.sat else ("undischarged", None)
         else:
             c = simp(Z(cond))
             if z3.is_true(c):
